@@ -84,6 +84,7 @@ type ctlSpec struct {
 	size     uint32
 	cookie   string
 	num      int64 // grace / expire / error / vchu expire
+	trueOctet byte // content octet gldap wrote for criticality TRUE (response direction)
 }
 
 const (
@@ -580,7 +581,8 @@ func H_C01_unbind() {
 func H_C01_unsupported() {
 	id := vID()
 	tag := vU64("tag")
-	vAssume(tag < 31)
+	// low-tag and high-tag-number forms (up to three tag octets)
+	vAssume(tag < 1<<21)
 	for _, t := range []uint64{ApplicationBindRequest, ApplicationUnbindRequest, ApplicationSearchRequest, ApplicationModifyRequest, ApplicationAddRequest, ApplicationDelRequest, ApplicationExtendedRequest} {
 		vAssume(tag != t)
 	}
